@@ -127,7 +127,7 @@ impl Ctx {
                 return v;
             }
         }
-        self.tier.pick(150.0, 3000.0)
+        self.tier.pick(600.0, 6000.0)
     }
 
     pub fn over_budget(&self) -> bool {
@@ -213,16 +213,25 @@ pub fn finish(ctx: &Ctx, mut cov: Coverage, recheck: &dyn Fn(&Value) -> Vec<Stri
     let replay_dir = verif_root().join("replays");
     let _ = std::fs::create_dir_all(&replay_dir);
     let mut violation_summaries = Vec::new();
+    // second exploration after a violation that did not reproduce in isolation (see below)
+    let confirm_path = replay_dir.join(format!("{}.confirm", ctx.prop));
+    let confirm_mode = std::env::var("VERIF_CONFIRM").is_ok();
+    let confirm_list: Vec<String> = if confirm_mode {
+        std::fs::read_to_string(&confirm_path).ok().and_then(|t| serde_json::from_str::<Vec<String>>(&t).ok()).unwrap_or_default()
+    } else {
+        Vec::new()
+    };
+    let mut pending_confirm: Vec<String> = Vec::new();
 
     for (sig, (v, count)) in sink.iter() {
-        let replay_doc = json!({
+        let mut history_dependent = false;
+        let mut replay_doc = json!({
             "property": ctx.prop,
             "signature": sig,
             "what": v.what,
             "case": v.case,
             "occurrences_in_run": count,
         });
-        let _ = &replay_doc;
         // replay: twice, same signature both times. The library's own hash maps are seeded per instance,
         // so a defect whose manifestation depends on their iteration order may need several replays; it is
         // reported (marked order-dependent) if it reproduces at all, and is a machinery error only if it
@@ -244,14 +253,32 @@ pub fn finish(ctx: &Ctx, mut cov: Coverage, recheck: &dyn Fn(&Value) -> Vec<Stri
                 tries += 1;
             }
             if !reproduced {
-                eprintln!(
-                    "MACHINERY-ERROR: property={} signature={} did not reproduce on {} replays (first={:?} second={:?})",
-                    ctx.prop, sig, tries, r1, r2
-                );
-                machinery_error = true;
-                continue;
+                // The case does not fail when it is executed alone. Either the machinery is not
+                // deterministic (a machinery error), or the subject keeps state between calls (a lazily
+                // built global, a thread-local scratch buffer, a process-wide cache) and the case only fails
+                // after the calls that preceded it in the exploration. The two are told apart by running the
+                // WHOLE deterministic exploration a second time (the driver does that when this process exits
+                // with status 3): a signature that is reported by both explorations and by neither isolated
+                // replay is a violation whose replay is the exploration itself.
+                if confirm_list.iter().any(|s| s == sig) {
+                    history_dependent = true;
+                } else if confirm_mode {
+                    eprintln!(
+                        "MACHINERY-ERROR: property={} signature={} did not reproduce on {} replays (first={:?} second={:?}) and was not reported by the first exploration",
+                        ctx.prop, sig, tries, r1, r2
+                    );
+                    machinery_error = true;
+                    continue;
+                } else {
+                    eprintln!(
+                        "NOTE: property={} signature={} did not reproduce on {} isolated replays (first={:?} second={:?}); the whole exploration is run a second time to tell hidden shared state in the subject from nondeterminism in the machinery",
+                        ctx.prop, sig, tries, r1, r2
+                    );
+                    pending_confirm.push(sig.clone());
+                    continue;
+                }
             }
-            order_dependent = true;
+            order_dependent = !history_dependent;
         }
         let is_known = known.iter().any(|k| k.property == ctx.prop && k.status == "open" && &k.signature == sig);
         if is_known {
@@ -259,6 +286,13 @@ pub fn finish(ctx: &Ctx, mut cov: Coverage, recheck: &dyn Fn(&Value) -> Vec<Stri
             println!("KNOWN-FINDING: property={} {} ({} occurrence(s) in this run): {}", ctx.prop, sig, count, v.what);
         } else {
             new_violations += 1;
+            if history_dependent {
+                replay_doc["replay_mode"] = json!(format!(
+                    "history-dependent: the case fails inside the exploration (reported by two consecutive complete explorations) but not when executed alone, i.e. the library's answer depends on calls made earlier in the same process; replay with `./check {} {}`",
+                    ctx.prop,
+                    ctx.tier.name()
+                ));
+            }
             let path = replay_dir.join(format!("{}-{:016x}.json", ctx.prop, fnv(sig)));
             match std::fs::File::create(&path) {
                 Ok(mut f) => {
@@ -267,7 +301,16 @@ pub fn finish(ctx: &Ctx, mut cov: Coverage, recheck: &dyn Fn(&Value) -> Vec<Stri
                 Err(e) => eprintln!("cannot write replay {}: {e}", path.display()),
             }
             println!("VIOLATION property={} replay={}", ctx.prop, path.display());
-            println!("  signature: {sig}{}", if order_dependent { "  [manifests depending on the library's hash-map iteration order: replay may need several attempts]" } else { "" });
+            println!(
+                "  signature: {sig}{}",
+                if history_dependent {
+                    "  [history-dependent: fails inside two consecutive complete explorations but not when the case is executed alone: the answer depends on earlier calls in the same process (hidden shared state)]"
+                } else if order_dependent {
+                    "  [manifests depending on the library's hash-map iteration order: replay may need several attempts]"
+                } else {
+                    ""
+                }
+            );
             println!("  what: {}", v.what);
         }
         violation_summaries.push(json!({"signature": sig, "known": is_known, "occurrences": count, "what": v.what}));
@@ -315,8 +358,21 @@ pub fn finish(ctx: &Ctx, mut cov: Coverage, recheck: &dyn Fn(&Value) -> Vec<Stri
             None => String::new(),
         }
     );
+    if confirm_mode {
+        for s in &confirm_list {
+            if !sink.contains_key(s) {
+                eprintln!("MACHINERY-ERROR: property={} signature={} was reported by the first exploration only (not reproducible in isolation, not reported again)", ctx.prop, s);
+                machinery_error = true;
+            }
+        }
+        let _ = std::fs::remove_file(&confirm_path);
+    }
     if machinery_error {
         return 2;
+    }
+    if !pending_confirm.is_empty() {
+        let _ = std::fs::write(&confirm_path, serde_json::to_string(&pending_confirm).unwrap());
+        return 3;
     }
     if new_violations > 0 {
         1
